@@ -132,6 +132,9 @@ pub struct ArmRecord {
     /// links (conn_id) whose socket write half is shut down (next send fails)
     pub broken: Vec<u64>,
     pub critical_open: bool,
+    /// per-link outstanding sequence numbers before the arm (filled for NAK uplink arms only)
+    pub pre_logs: Vec<(u64, std::collections::BTreeSet<i32>)>,
+    pub client_known_pre: bool,
 }
 
 #[derive(Clone, Debug)]
@@ -193,6 +196,8 @@ pub struct Driver {
     pub last_hk: u64,
     pub last_flush: u64,
     pub opts: StreamOpts,
+    pub capture_logs_always: bool,
+    client_known_pre: bool,
 }
 
 impl Driver {
@@ -203,10 +208,11 @@ impl Driver {
         let mut rxm = SimReceiver::new();
         rxm.loss_permille = 0;
         rxm.max_delay = *rng.pick(&[0u64, 5, 40, 40, 150]);
-        Driver { sim, rxm, inj: Vec::new(), by_bytes: HashMap::new(), arm_no: 0, broken: Vec::new(), next_seq: rng.below(1 << 30) as u32, uid: 1, arm_codes: Vec::new(), last_hk: t0, last_flush: t0, opts }
+        Driver { sim, rxm, inj: Vec::new(), by_bytes: HashMap::new(), arm_no: 0, broken: Vec::new(), next_seq: rng.below(1 << 30) as u32, uid: 1, arm_codes: Vec::new(), last_hk: t0, last_flush: t0, opts, capture_logs_always: false, client_known_pre: false }
     }
 
-    fn record(&mut self, kind: ArmKind, pre: Vec<LinkSnap>, last_pre: Option<usize>, established: bool, rng: &mut Rng, mons: &mut [&mut dyn Monitor], rep: &mut Report) {
+    #[allow(clippy::too_many_arguments)]
+    fn record_with_logs(&mut self, kind: ArmKind, pre: Vec<LinkSnap>, pre_logs: Vec<(u64, std::collections::BTreeSet<i32>)>, last_pre: Option<usize>, established: bool, rng: &mut Rng, mons: &mut [&mut dyn Monitor], rep: &mut Report) {
         let post = snapshot(&self.sim);
         let frames = self.sim.drain_rx();
         let client = self.sim.drain_client();
@@ -232,6 +238,8 @@ impl Driver {
             client,
             broken: self.broken.clone(),
             critical_open: self.sim.critical.is_critical_now(t),
+            pre_logs,
+            client_known_pre: self.client_known_pre,
         };
         rep.t(|| {
             format!(
@@ -270,6 +278,10 @@ impl Driver {
         self.arm_no += 1;
     }
 
+    fn record(&mut self, kind: ArmKind, pre: Vec<LinkSnap>, last_pre: Option<usize>, established: bool, rng: &mut Rng, mons: &mut [&mut dyn Monitor], rep: &mut Report) {
+        self.record_with_logs(kind, pre, Vec::new(), last_pre, established, rng, mons, rep)
+    }
+
     pub fn arm_client(&mut self, payload: Vec<u8>, seq: Option<u32>, is_data: bool, retransmit: bool, rng: &mut Rng, mons: &mut [&mut dyn Monitor], rep: &mut Report) {
         let pre = snapshot(&self.sim);
         let last_pre = self.sim.last_selected_idx;
@@ -287,8 +299,10 @@ impl Driver {
         let pre = snapshot(&self.sim);
         let last_pre = self.sim.last_selected_idx;
         let established = self.sim.reg.has_connected;
+        self.client_known_pre = self.sim.last_client_addr.is_some();
+        let pre_logs = if self.capture_logs_always || rc::ptype(&bytes) == Some(0x8003) { self.sim.conns.iter().map(|c| (c.conn_id, c.packet_log.keys().copied().collect())).collect() } else { Vec::new() };
         self.sim.arm_uplink(conn_id, &bytes);
-        self.record(ArmKind::Uplink { conn_id, bytes, what }, pre, last_pre, established, rng, mons, rep);
+        self.record_with_logs(ArmKind::Uplink { conn_id, bytes, what }, pre, pre_logs, last_pre, established, rng, mons, rep);
     }
 
     pub fn arm_flush(&mut self, rng: &mut Rng, mons: &mut [&mut dyn Monitor], rep: &mut Report) {
